@@ -1,1 +1,17 @@
 package harness
+
+import "verif/mc/explore"
+
+// FindScenario looks a scheduler scenario up by name (debugging, replay).
+func FindScenario(name string) *explore.Scenario {
+	var all []*explore.Scenario
+	all = append(all, c18Scenarios()...)
+	all = append(all, c03Scenarios()...)
+	all = append(all, c06Scenarios()...)
+	for _, sc := range all {
+		if sc.Name == name {
+			return sc
+		}
+	}
+	return nil
+}
